@@ -55,6 +55,22 @@ Theorem C12_head_blocked_inv : forall size ops,
 Proof. exact head_blocked_inv_lemma. Qed.
 Print Assumptions C12_head_blocked_inv.
 
+(* The invariant above is a statement about atomic method calls.  It fails as
+   soon as the decision to wait and the insertion into the queue are two
+   critical sections: a Release landing in between is lost (refutation by
+   computation on the model with the second half as a separate step).  The
+   check therefore also drives the real Acquire with a Release / size
+   increase landing INSIDE the call (Formatter callback) and under
+   contention. *)
+Theorem C12_enqueue_must_be_atomic :
+  let s0 := fst (step (sem_init 10) (Acquire 1 5)) in
+  snd (step s0 (Acquire 2 8)) = [EEnqueue 2 8] /\
+  let s1 := fst (step s0 (Release 5)) in
+  let s2 := enqueue_only s1 2 8 in
+  s_wait s2 = [(2%N, 8)] /\ available s2 = 10 /\ ~ head_blocked s2.
+Proof. exact enqueue_must_be_atomic_lemma. Qed.
+Print Assumptions C12_enqueue_must_be_atomic.
+
 (* The three outcomes of Acquire: immediate grant exactly when the request
    fits and nobody is queued; otherwise an error exactly when it exceeds the
    hard limit; otherwise it queues at the tail. *)
